@@ -521,7 +521,7 @@ class StructRun(object):
             return self._kwp
         pool = {}
         for key, exs in self.lib.examples.items():
-            for (o, v, origin) in exs[:30]:
+            for (o, v, origin) in exs[:30] + [e for e in exs[30:] if e[2].startswith("builder")]:
                 kw = IC.ctor_kwargs(o)
                 if not kw:
                     continue
@@ -574,6 +574,118 @@ class StructRun(object):
         for k, v in st.items():
             self.stats["traffic:" + k] = v
 
+    # -- falsy values of optional primitive fields --------------------------------------------------
+    def falsy_phase(self):
+        """For every class and every constructor argument that holds (or can hold) a primitive value: the same
+        instance once with a truthy and once with the FALSY value of that type (False, 0, '', b'', [], enum member
+        0), alone and together with the other arguments, under every version.  Wherever the truthy sibling's field
+        survives decode(encode(x)), the falsy one must survive too (compared through the object's own attributes /
+        properties, original against decoded)."""
+        n_ex = 3 if self.tier == "quick" else 12
+        combos = set()
+        per_class = {}
+        for key in sorted(self.lib.classes):
+            cls, own = self.lib.classes[key]
+            exs = self.lib.examples.get(key, [])
+            if not exs or IC.factory_for_class(cls) is None:
+                continue
+            idx = list(range(len(exs)))
+            self.rng.shuffle(idx)
+            firsts, seen_masks = [], set()
+            for i in idx:
+                mk = presence_mask(exs[i][0])
+                if mk not in seen_masks:
+                    seen_masks.add(mk)
+                    firsts.append(i)
+            firsts.sort(key=lambda i: -presence_mask(exs[i][0]).count("1"))
+            done_fields = {}
+            for i in firsts[:n_ex]:
+                o = exs[i][0]
+                kw = IC.ctor_kwargs(o)
+                if not kw:
+                    continue
+                for k in sorted(kw):
+                    if k == "tag" or time.time() - self.t0 > self.budget_s + 20:
+                        continue
+                    cur = kw[k]
+                    if cur is None or cur == []:
+                        cur = self.kwarg_candidate(k)
+                    pairs = falsy_pairs(cur)
+                    if not pairs and (cur is None or cur == []):
+                        # nothing known about the argument: find out by behaviour which raw types it takes (a
+                        # probe counts when the constructor accepts it and it survives a round trip somewhere)
+                        for probe in (True, 1, "x", b"x"):
+                            try:
+                                xp = cls(**dict(copy.deepcopy(kw), **{k: probe}))
+                            except Exception:
+                                continue
+                            if any(field_survives(xp, k, v, [], cls.__name__) is True for v in IC.VERSIONS):
+                                pairs += falsy_pairs(probe)
+                    if not pairs:
+                        continue
+                    for (truthy, falsy, label) in pairs:
+                        # enough once every version has been exercised twice with an encodable sibling
+                        if all(done_fields.get((k, label, vv), 0) >= 2 for vv in IC.VERSIONS):
+                            continue
+                        for ctx_name, base in (("with-others", kw), ("alone", self.minimal_kwargs(cls, kw, k))):
+                            if base is None:
+                                continue
+                            try:
+                                xt = cls(**dict(copy.deepcopy(base), **{k: copy.deepcopy(truthy)}))
+                                xf = cls(**dict(copy.deepcopy(base), **{k: copy.deepcopy(falsy)}))
+                            except Exception:
+                                self.stats["falsy_ctor_rejected"] = self.stats.get("falsy_ctor_rejected", 0) + 1
+                                continue
+                            if IC.diff(getattr(xf, k, None), falsy) and not isinstance(falsy, primitives.Base):
+                                # the constructor itself normalised the falsy value away (e.g. '' -> None)
+                                if getattr(xf, k, None) is None:
+                                    self.stats["falsy_normalised_by_ctor"] = \
+                                        self.stats.get("falsy_normalised_by_ctor", 0) + 1
+                                    continue
+                            for v in IC.VERSIONS:
+                                rt = field_survives(xt, k, v, self.emitted, cls.__name__)
+                                rf = field_survives(xf, k, v, self.emitted, cls.__name__)
+                                if rf is None:
+                                    continue
+                                done_fields[(k, label, v)] = done_fields.get((k, label, v), 0) + 1
+                                combos.add((cls.__name__, k, label, IC.vname(v)))
+                                per_class[cls.__name__] = per_class.get(cls.__name__, 0) + 1
+                                self.evaluations += 1
+                                if rt is True and rf is False:
+                                    self.findings.append(Finding(
+                                        "c01:falsy-field-dropped:%s.%s" % (defining_class(xf, "write"), k),
+                                        "%s(%s=%s) under KMIP %s: the field survives decode(encode(x)) when it holds %r "
+                                        "and is lost or changed when it holds the falsy value %r (%s)"
+                                        % (cls.__name__, k, label, IC.vname(v), short_val(truthy), short_val(falsy),
+                                           ctx_name),
+                                        {"kind": "falsy", "class": key, "field": k, "label": label,
+                                         "version": IC.vname(v), "context": ctx_name,
+                                         "base": {kk: describe_value(vv) for kk, vv in base.items()
+                                                  if kk != k and vv is not None and vv != []},
+                                         "falsy": describe_value(falsy), "truthy": describe_value(truthy)}))
+        self.stats["falsy_combinations"] = len(combos)
+        self.falsy_combinations = len(combos)
+        self.falsy_per_class = per_class
+
+    def minimal_kwargs(self, cls, kw, k):
+        """the other arguments reduced to what the class needs to be written at all (None when nothing works)"""
+        base = {kk: (vv if kk == "tag" else None) for kk, vv in kw.items()}
+        order = [kk for kk in kw if kk not in ("tag", k) and kw[kk] is not None and kw[kk] != []]
+        for attempt in range(len(order) + 1):
+            try:
+                x = cls(**dict(copy.deepcopy(base), **{k: copy.deepcopy(kw[k]) if kw[k] is not None else None}))
+                for v in (enums.KMIPVersion.KMIP_2_0, enums.KMIPVersion.KMIP_1_4, enums.KMIPVersion.KMIP_1_0):
+                    try:
+                        IC.enc(x, v)
+                        return base
+                    except Exception:
+                        continue
+            except Exception:
+                pass
+            if attempt < len(order):
+                base[order[attempt]] = kw[order[attempt]]
+        return None
+
     def run(self):
         self.collect_seeds()
         self.check_traffic()
@@ -617,6 +729,7 @@ class StructRun(object):
             pc["stats"] = st
             for k, n in st.items():
                 self.stats[k] = self.stats.get(k, 0) + n
+        self.falsy_phase()
         return self
 
 
@@ -633,6 +746,97 @@ def deep_mask(o, depth=0):
         else:
             m.append("1")
     return "".join(m)
+
+
+def short_val(v):
+    if isinstance(v, primitives.Base):
+        return "%s(%r)" % (type(v).__name__, getattr(v, "value", None))
+    return v
+
+
+def falsy_of_raw(v):
+    """(truthy, falsy, label) for a raw Python value, or None"""
+    import enum as _enum
+    if isinstance(v, bool):
+        return (True, False, "False")
+    if isinstance(v, _enum.Enum):
+        zero = [m for m in type(v) if m.value == 0]
+        if not zero:
+            return None
+        nonzero = [m for m in type(v) if m.value != 0]
+        return (v if v.value != 0 else (nonzero[0] if nonzero else v), zero[0], "enum0")
+    if isinstance(v, int):
+        return (v if v != 0 else 1, 0, "0")
+    if isinstance(v, str):
+        return (v if v else "x", "", "''")
+    if isinstance(v, bytes):
+        return (v if v else b"x", b"", "b''")
+    return None
+
+
+def falsy_pairs(cur):
+    """[(truthy value, falsy value, label)] for what a constructor argument holds"""
+    if cur is None:
+        return []
+    if isinstance(cur, primitives.Struct):
+        return []
+    if isinstance(cur, primitives.Base):
+        kind = IC.prim_kind(cur)
+        val = cur.value
+        if kind == "Enumeration":
+            r = falsy_of_raw(val) if val is not None else None
+        elif kind == "Boolean":
+            r = (True, False, "False")
+        elif kind in ("Integer", "LongInteger", "BigInteger", "Interval", "DateTime"):
+            r = (val if val else 1, 0, "0")
+        elif kind == "TextString":
+            r = (val if val else "x", "", "''")
+        elif kind == "ByteString":
+            r = (val if val else b"x", b"", "b''")
+        else:
+            r = None
+        if r is None:
+            return []
+        t, f = IC.rebuild_prim(cur, r[0]), IC.rebuild_prim(cur, r[1])
+        if t is None or f is None:
+            return []
+        return [(t, f, r[2])]
+    if isinstance(cur, list):
+        if cur and not isinstance(cur[0], primitives.Struct):
+            out = [(cur, [], "[]")]
+            r = falsy_pairs(cur[0])
+            for (t, f, label) in r:
+                out.append(([t], [f], "[" + label + "]"))
+            return out
+        return []
+    r = falsy_of_raw(cur)
+    return [r] if r else []
+
+
+def field_survives(x, k, v, emitted, cls_name):
+    """True / False: attribute k of the decoded object equals the original's; None when x cannot be encoded or its
+    encoding is not accepted under v"""
+    xv = copy.deepcopy(x)
+    set_header_version(xv, v)
+    factory = IC.factory_for(xv)
+    if factory is None:
+        return None
+    try:
+        b = IC.enc(xv, v)
+    except Exception:
+        return None
+    emitted.append((cls_name, IC.vname(v), b))
+    try:
+        y, left = IC.dec(factory, b, v)
+    except Exception:
+        return None
+    if left:
+        return None
+    try:
+        a, c = getattr(xv, k), getattr(y, k)
+    except Exception:
+        return None
+    return not IC.diff(a, c)
 
 
 def presence_mask(o):
@@ -848,6 +1052,11 @@ def describe_value(v):
             except Exception:
                 continue
         return None
+    import enum as _enum
+    if isinstance(v, _enum.Enum):
+        return {"enum_raw": type(v).__name__, "value": v.value}
+    if isinstance(v, list):
+        return {"list": [describe_value(e) for e in v]}
     if isinstance(v, bool) or isinstance(v, int) or isinstance(v, str):
         return {"py": v}
     if isinstance(v, bytes):
@@ -860,6 +1069,10 @@ def undescribe_value(d):
         return None
     if "py" in d:
         return d["py"]
+    if "enum_raw" in d:
+        return getattr(enums, d["enum_raw"])(d["value"])
+    if "list" in d:
+        return [undescribe_value(e) for e in d["list"]]
     if "bytes" in d:
         return bytes.fromhex(d["bytes"])
     import importlib
